@@ -62,6 +62,7 @@ type poolSpec struct {
 	Discard        bool
 	FirstShotDelay time.Duration
 	QueueSize      int // generic json provider: ammo-queue-size (0: default)
+	Ctx         context.Context // parent context of Engine.Run (nil: background); cancelling it ends the run
 	PerInstance bool
 	RPS         []interface{}
 	Startup     []interface{}
@@ -118,6 +119,9 @@ func (ps poolSpec) configMap() map[string]interface{} {
 	if ps.Shots == 0 {
 		ammo["passes"] = 1
 		times = 1000000
+	}
+	if ps.Shots < 0 { // unlimited passes; the rps list (ps.RPS) or the context ends the run
+		times = 1
 	}
 	res := ps.Result
 	if res == nil {
@@ -180,7 +184,11 @@ func runPool(rec *grpctarget.Rec, ps poolSpec, limit time.Duration) (error, erro
 	m := engine.Metrics{Request: &monitoring.Counter{}, Response: &monitoring.Counter{},
 		InstanceStart: &monitoring.Counter{}, InstanceFinish: &monitoring.Counter{}}
 	e := engine.New(zap.NewNop(), m, conf.Engine)
-	ctx, cancel := context.WithTimeout(context.Background(), limit)
+	parent := ps.Ctx
+	if parent == nil {
+		parent = context.Background()
+	}
+	ctx, cancel := context.WithTimeout(parent, limit)
 	defer cancel()
 	err := e.Run(ctx)
 	cancel()
